@@ -7,6 +7,7 @@
 -/
 import Umya.Driver.Proto
 import Umya.Model.Style
+import Umya.Driver.C05Codec
 namespace Umya.Driver.C05
 open Umya.Style Umya.Proto
 
@@ -249,6 +250,8 @@ def withStyle (st : St) (enc : String) (f : Style → Book) : St × String :=
 def handle (st : St) (args : List String) : St × String :=
   match args with
   | ["reset"] => ({}, "ok")
+  | "codec" :: _ => (st, "ok")
+  | "codecx" :: rest => (st, Umya.Driver.C05Codec.handle rest)
   | ["builtin", id] => match id.toNat? with
     | some id => (st, match builtin id with | some c => encodeStr c | none => "none")
     | none => (st, "bad-op")
